@@ -666,19 +666,37 @@ class UartTopInst(PInst):
 class UartSysMonitor:
     """UART with its RS232 PHY, pads.tx looped back to pads.rx (by the stimulus; checked here): every character software
     writes while txfull = 0 comes back on rxtx.w, in order, each within (position + 2) * 11 bit periods; nothing else
-    does.  Disarmed if the RX FIFO ever reports full or the stimulus is not a loopback."""
+    does.  txfull / rxfull are not reported while fewer than tx_fifo_depth / rx_fifo_depth characters are outstanding
+    (the depths given to the constructor or to SoC.add_uart).  The ordering check is disarmed once the RX FIFO reports
+    full (characters may then be dropped) or if the stimulus is not a loopback."""
 
-    def __init__(self, bit_cycles, rx_we=False):
-        self.bit, self.rx_we = bit_cycles, rx_we
+    def __init__(self, bit_cycles, rx_we=False, dtx=None, drx=None):
+        self.bit, self.rx_we, self.dtx, self.drx = bit_cycles, rx_we, dtx, drx
+        self.t, self.frames, self.next_ok, self.starts = 0, 0, 0, []   # frames seen on the pad (start edges >= 9 bits apart)
         self.q, self.age, self.armed, self.prev_tx, self.done = [], 0, True, 1, 0
 
     def observe(self, letter, outs):
         re, r, we, clr, padrx = letter
         tx, w, txfull, txempty, rxempty, rxfull = outs
-        if padrx != self.prev_tx or rxfull:
+        if padrx != self.prev_tx:
             self.armed = False
+        if self.prev_tx and not tx and self.t >= self.next_ok:
+            self.starts.append(self.t)
+            self.next_ok = self.t + 9 * max(self.bit - 1, 1)
+        while self.starts and self.starts[0] <= self.t - 9 * max(self.bit - 1, 1):
+            self.starts.pop(0)                           # old enough to have reached the receiver's stop-bit sample
+            self.frames += 1
+        self.t += 1
         self.prev_tx = tx
         if not self.armed:
+            return None
+        waiting = min(len(self.q), self.frames - self.done)      # characters that can have reached the RX FIFO
+        if rxfull and self.drx is not None and waiting < self.drx:
+            return "rxfull with at most %d characters received and not read, rx_fifo_depth=%d" % (waiting, self.drx)
+        if txfull and self.dtx is not None and len(self.q) < self.dtx:
+            return "txfull with %d characters outstanding, tx_fifo_depth=%d" % (len(self.q), self.dtx)
+        if rxfull:
+            self.armed = False
             return None
         msg = None
         if not rxempty:
@@ -721,7 +739,7 @@ class UartSysInst(PInst):
                        [pads.tx, core._rxtx.w, core._txfull.status, core._txempty.status, core._rxempty.status,
                         core._rxfull.status], None, None, lambda l, o: l[0] or not o[3] or not o[4],
                        qual=[None, (lambda a: a[4] == 0), None, None, None, None])
-        self.monitor = lambda: UartSysMonitor(self.bit, rx_we)
+        self.monitor = lambda: UartSysMonitor(self.bit, rx_we, dtx, drx)
 
     def apply(self, letter):
         n, c = self.netlist, self.core
@@ -739,10 +757,12 @@ class UartSysInst(PInst):
     def gen(self, rng, t):
         if t == 0:
             self._tx, self._rxempty, self._txfull = 1, 1, 0
-        burst = (t // (40 * self.bit)) % 3
-        pw = (0.002, 0.3, 0.0)[burst] if not self._txfull else 0.05
+        burst = (t // (40 * self.bit)) % 4               # sparse / burst / idle / burst while software does not read
+        pw = (0.002, 0.3, 0.0, 0.3)[burst] if not self._txfull else 0.05
         re = 1 if rng.random() < pw else 0
         clr = 1 if (not self._rxempty and rng.random() < 0.2) else (1 if rng.random() < 0.01 else 0)
+        if burst == 3:
+            clr = 0
         return (re, rng.getrandbits(8), 1 if rng.random() < 0.05 else 0, clr, self._tx)
 
 
